@@ -30,7 +30,7 @@ pub struct Case<'a> {
     pub mode: u8,
 }
 
-fn script_json(s: &[Ev]) -> Value {
+pub fn script_json(s: &[Ev]) -> Value {
     Value::Array(s.iter().map(|e| match e { Ev::It(x) => json!(x), Ev::Pend => json!("P") }).collect())
 }
 
